@@ -1,3 +1,424 @@
 package main
 
-func runCheck(args []string) int { return 2 }
+// Property checks: `gvc check <id> <tier>` (DESIGN.md section 5).
+
+import (
+	"crypto/sha256"
+	"encoding/hex"
+	"encoding/json"
+	"fmt"
+	"os"
+	"path/filepath"
+	"sort"
+	"strconv"
+	"strings"
+	"sync"
+	"time"
+
+	"golang.org/x/tools/go/ssa"
+)
+
+var verifDir = "/verif"
+
+type propMeta struct {
+	Undecided   []string `json:"undecided_parts"`
+	Assumptions []string `json:"assumptions"`
+}
+
+type knownFinding struct {
+	Property   string `json:"property"`
+	Obligation string `json:"obligation"` // obligation name (without case); prefix match allowed with trailing *
+	What       string `json:"what"`
+	Witness    string `json:"witness"`
+	Status     string `json:"status"` // open | fixed:<commit>
+}
+
+func hasTag(tags []string, id string) bool {
+	for _, t := range tags {
+		if t == id {
+			return true
+		}
+	}
+	return false
+}
+
+func (fc *FuncC) allTags() map[string]bool {
+	m := map[string]bool{}
+	add := func(ts []string) {
+		for _, t := range ts {
+			m[t] = true
+		}
+	}
+	add(fc.PanicTags)
+	for _, c := range fc.Req {
+		add(c.Tags)
+	}
+	for _, c := range fc.Ens {
+		add(c.Tags)
+	}
+	for _, c := range fc.Dec {
+		add(c.Tags)
+	}
+	if fc.Cut != nil {
+		for _, c := range fc.Cut.Asserts {
+			add(c.Tags)
+		}
+	}
+	for _, l := range fc.Loops {
+		for _, cl := range [][]Clause{l.Inv, l.Dec, l.Back, l.Iter} {
+			for _, c := range cl {
+				add(c.Tags)
+			}
+		}
+	}
+	return m
+}
+
+type evidence struct {
+	PropertyID  string                 `json:"property_id"`
+	Tier        string                 `json:"tier"`
+	Seed        int                    `json:"seed"`
+	Level       string                 `json:"level"`
+	Coverage    map[string]interface{} `json:"coverage"`
+	Assumptions []string               `json:"assumptions"`
+	WallS       float64                `json:"wall_s"`
+	Violations  int                    `json:"violations"`
+}
+
+func runCheck(args []string) int {
+	if args[0] != "check" || len(args) < 3 {
+		if args[0] == "replay" && len(args) == 2 {
+			return runReplay(args[1])
+		}
+		if args[0] == "axioms" {
+			return runAxioms()
+		}
+		fmt.Fprintln(os.Stderr, "usage: gvc check <id> quick|thorough")
+		return 2
+	}
+	id, tier := args[1], args[2]
+	if tier != "quick" && tier != "thorough" {
+		fmt.Fprintln(os.Stderr, "tier must be quick or thorough")
+		return 2
+	}
+	if s := os.Getenv("VERIF_SEED"); s != "" {
+		if v, err := strconv.Atoi(s); err == nil {
+			solverSeed = v
+		}
+	}
+	t0 := time.Now()
+	p, err := loadProgram()
+	if err != nil {
+		fmt.Fprintln(os.Stderr, "TOOLING-ERROR: load:", err)
+		return 2
+	}
+	timeout := 10
+	if tier == "thorough" {
+		timeout = 60
+	}
+	// stale contracts
+	for _, name := range p.cs.Order {
+		if p.funcs[name] == nil && !strings.HasPrefix(name, "iface:") {
+			fmt.Printf("STALE-CONTRACT: contract names function %s which does not exist\n", name)
+			return 2
+		}
+	}
+	// functions of this property
+	var names []string
+	for _, name := range p.cs.Order {
+		fc := p.cs.Funcs[name]
+		if fc.Kind == "func" && fc.allTags()[id] {
+			names = append(names, name)
+		}
+	}
+	var lemmas []*Lemma
+	for _, l := range p.cs.Lemmas {
+		if hasTag(l.Tags, id) {
+			lemmas = append(lemmas, l)
+		}
+	}
+	if len(names) == 0 && len(lemmas) == 0 {
+		fmt.Fprintf(os.Stderr, "TOOLING-ERROR: no contract clause is tagged %s\n", id)
+		return 2
+	}
+	filter := func(o *Obl) bool { return len(o.Tags) == 0 || hasTag(o.Tags, id) }
+
+	known := loadKnown()
+	var results []*FuncResult
+	var mu sync.Mutex
+	var wg sync.WaitGroup
+	sem := make(chan struct{}, 6)
+	usesUF := false
+	for _, name := range names {
+		name := name
+		if p.cs.Funcs[name].Arith == "uf" {
+			usesUF = true
+		}
+		wg.Add(1)
+		go func() {
+			defer wg.Done()
+			sem <- struct{}{}
+			defer func() { <-sem }()
+			r := verifyFunc(p, p.funcs[name], p.cs.Funcs[name], timeout, filter)
+			mu.Lock()
+			results = append(results, r)
+			mu.Unlock()
+		}()
+	}
+	wg.Wait()
+	sort.Slice(results, func(i, j int) bool { return results[i].Name < results[j].Name })
+	if usesUF {
+		results = append(results, verifyAxioms(timeout))
+	}
+	for _, l := range lemmas {
+		results = append(results, verifyLemma(p, l, timeout))
+	}
+
+	// smoke (vacuity) checks
+	for _, name := range names {
+		if msg := smoke(p, p.funcs[name], p.cs.Funcs[name]); msg != "" {
+			fmt.Printf("VACUOUS-CONTRACT: %s: %s\n", name, msg)
+			return 2
+		}
+	}
+
+	// aggregate
+	type agg struct {
+		name      string
+		fn        string
+		total, ok int
+		bad       []*Obl
+		solver    map[string]int
+		time      float64
+		tags      []string
+		kind      string
+	}
+	byName := map[string]*agg{}
+	var order []string
+	exit := 0
+	toolErr := false
+	leaf := 0
+	byBackend := map[string]int{}
+	solverTime := 0.0
+	for _, r := range results {
+		if r.Err != "" {
+			if strings.HasPrefix(r.Err, "STALE-CONTRACT") {
+				fmt.Println(r.Err)
+				return 2
+			}
+			fmt.Printf("TOOLING-ERROR: %s: %s\n", r.Name, r.Err)
+			toolErr = true
+			continue
+		}
+		leaf += r.Cases
+		for _, o := range r.Obls {
+			a := byName[o.Name]
+			if a == nil {
+				a = &agg{name: o.Name, fn: o.Func, solver: map[string]int{}, tags: o.Tags, kind: o.Kind}
+				byName[o.Name] = a
+				order = append(order, o.Name)
+			}
+			a.total++
+			a.time += o.TimeS
+			solverTime += o.TimeS
+			if o.Result == "unsat" {
+				a.ok++
+				a.solver[o.Solver]++
+				byBackend[o.Solver]++
+			} else {
+				a.bad = append(a.bad, o)
+			}
+		}
+	}
+	if toolErr {
+		return 2
+	}
+	if len(order) == 0 {
+		fmt.Printf("TOOLING-ERROR: property %s generated zero obligations\n", id)
+		return 2
+	}
+	discharged := 0
+	var samples []interface{}
+	var knownHit []string
+	violations := 0
+	var fnames []string
+	seenFn := map[string]bool{}
+	for _, n := range order {
+		a := byName[n]
+		if !seenFn[a.fn] {
+			seenFn[a.fn] = true
+			fnames = append(fnames, a.fn)
+		}
+		if len(a.bad) == 0 {
+			discharged++
+			if len(samples) < 12 && (a.kind == "post" || len(samples) < 6) {
+				best := ""
+				for s := range a.solver {
+					best = s
+				}
+				samples = append(samples, map[string]interface{}{"obligation": a.name, "cases": a.total, "result": "unsat", "solver": best, "solver_time_s": round3(a.time)})
+			}
+			continue
+		}
+		// failed obligation: known finding?
+		if kf := matchKnown(known, id, a.name); kf != nil {
+			fmt.Printf("KNOWN-FINDING: property=%s %s [%s]\n", id, kf.What, a.name)
+			knownHit = append(knownHit, a.name)
+			continue
+		}
+		violations++
+		exit = 1
+		rp := writeReplay(p, id, a.name, a.bad, tier)
+		suffix := ""
+		if !rp.reproduced {
+			suffix = " no-failing-input-found"
+		}
+		fmt.Printf("VIOLATION property=%s replay=%s%s\n", id, rp.path, suffix)
+		fmt.Printf("  failed obligation: %s (%s in %d of %d cases, e.g. {%s})\n", a.name, a.bad[0].Result, len(a.bad), a.total, a.bad[0].Case)
+	}
+	meta := loadMeta(id)
+	assumptions := append([]string{}, meta.Assumptions...)
+	for _, name := range p.cs.Order {
+		fc := p.cs.Funcs[name]
+		if fc.Kind != "func" {
+			assumptions = append(assumptions, fmt.Sprintf("%s contract of %s is assumed, not verified", fc.Kind, name))
+		}
+	}
+	assumptions = append(assumptions,
+		"integers: Go machine arithmetic modelled exactly for + - (wrap-around), conversions, div/mod; non-constant products are an uninterpreted mulI with sound bounds (m <= 2^32 is a stated precondition of the functional claims)",
+		"append allocates a fresh backing array (no aliasing through spare capacity); resource exhaustion (huge make) not modelled",
+		"heap model: every reference stored in a field or slice is nil or allocated (< $alloc)")
+	ev := evidence{PropertyID: id, Tier: tier, Seed: solverSeed, Level: "proof", WallS: round3(time.Since(t0).Seconds()), Violations: violations,
+		Assumptions: assumptions,
+		Coverage: map[string]interface{}{
+			"obligations":              len(order),
+			"discharged":               discharged,
+			"leaf_queries":             leaf,
+			"checker_cmd":              fmt.Sprintf("/verif/check %s %s   (gvc: VCs from go/ssa of /repo's working tree with -tags verif; z3 5.1.0 / z3 4.8.12 / cvc5 1.0.3 portfolio, timeout %ds per query)", id, tier, timeout),
+			"trusted_base":             trustedBase,
+			"functions_under_contract": fnames,
+			"by_backend":               byBackend,
+			"solver_time_s":            round3(solverTime),
+			"solver_queries":           statQueries,
+			"samples":                  samples,
+			"known_findings_reported":  knownHit,
+			"undecided_parts":          meta.Undecided,
+			"bounded":                  []string{},
+			"explanation":              "every obligation (postcondition, invariant, callee precondition, panic site, frame condition, variant) tagged with this property or supporting it is generated from the current source and must be unsat (negated) on one of the solvers; `obligations` counts distinct obligations, `leaf_queries` the split cases they were decided in",
+		}}
+	os.MkdirAll(filepath.Join(verifDir, "evidence"), 0o755)
+	data, _ := json.MarshalIndent(ev, "", " ")
+	os.WriteFile(filepath.Join(verifDir, "evidence", id+".json"), append(data, '\n'), 0o644)
+	fmt.Printf("property %s: %d/%d obligations discharged over %d function(s), %d leaf queries, %.1fs\n", id, discharged, len(order), len(fnames), leaf, time.Since(t0).Seconds())
+	return exit
+}
+
+func round3(f float64) float64 { return float64(int(f*1000+0.5)) / 1000 }
+
+var trustedBase = []string{
+	"go/packages + go/ssa (x/tools v0.29.0): translation of the source to SSA",
+	"gvc itself: encoding of SSA and contracts into SMT-LIB",
+	"SMT solvers z3 5.1.0, z3 4.8.12, cvc5 1.0.3 (an unsat answer of any one of them is accepted)",
+	"assumed contracts (extern / trusted items of the contract file), listed under assumptions",
+	"user-supplied Reporter implementations do not mutate the simulator",
+}
+
+func loadKnown() []knownFinding {
+	var kf []knownFinding
+	data, err := os.ReadFile(filepath.Join(verifDir, "known_findings.json"))
+	if err != nil {
+		return nil
+	}
+	var doc struct {
+		Findings []knownFinding `json:"findings"`
+	}
+	if json.Unmarshal(data, &doc) == nil {
+		kf = doc.Findings
+	}
+	return kf
+}
+
+func matchKnown(kf []knownFinding, id, obl string) *knownFinding {
+	for i := range kf {
+		k := &kf[i]
+		if k.Property != id || k.Status != "open" {
+			continue
+		}
+		if k.Obligation == obl {
+			return k
+		}
+		if strings.HasSuffix(k.Obligation, "*") && strings.HasPrefix(obl, strings.TrimSuffix(k.Obligation, "*")) {
+			return k
+		}
+	}
+	return nil
+}
+
+func loadMeta(id string) propMeta {
+	var all map[string]propMeta
+	data, err := os.ReadFile(filepath.Join(verifDir, "spec", "properties_meta.json"))
+	if err == nil {
+		json.Unmarshal(data, &all)
+	}
+	return all[id]
+}
+
+type replayInfo struct {
+	path       string
+	reproduced bool
+}
+
+func writeReplay(p *Program, id, obl string, bad []*Obl, tier string) replayInfo {
+	dir := filepath.Join(verifDir, "replays", id)
+	os.MkdirAll(dir, 0o755)
+	sum := sha256.Sum256([]byte(obl))
+	path := filepath.Join(dir, hex.EncodeToString(sum[:6])+".json")
+	var cases []map[string]interface{}
+	for i, o := range bad {
+		if i >= 8 {
+			break
+		}
+		cases = append(cases, map[string]interface{}{"case": o.Case, "result": o.Result, "solver": o.Solver, "time_s": round3(o.TimeS), "solver_output": o.Model})
+	}
+	doc := map[string]interface{}{
+		"property":   id,
+		"obligation": obl,
+		"function":   bad[0].Func,
+		"kind":       bad[0].Kind,
+		"source":     bad[0].Pos,
+		"tier":       tier,
+		"failed_cases": cases,
+		"outcome":    "no-failing-input-found",
+		"note":       "the obligation is generated from the current source and is no longer discharged; see solver_output",
+	}
+	rp := replayInfo{path: path}
+	if r := tryReplay(p, id, obl, bad, doc); r {
+		rp.reproduced = true
+		doc["outcome"] = "reproduced"
+	}
+	data, _ := json.MarshalIndent(doc, "", " ")
+	os.WriteFile(path, append(data, '\n'), 0o644)
+	return rp
+}
+
+// smoke: the function's returns must be reachable under its contract assumptions.
+func smoke(p *Program, fn *ssa.Function, fc *FuncC) string {
+	e := newEnc(p, fn, fc)
+	if err := e.Encode(); err != nil {
+		return ""
+	}
+	// is "requires" alone contradictory?  (assert that the entry is reachable)
+	var b strings.Builder
+	b.WriteString("(set-option :produce-models true)\n(set-logic ALL)\n")
+	// only the declarations and the assumptions made before the first obligation
+	pre := e.script()
+	// cut the script at the first obligation definition
+	if i := strings.Index(pre, "(define-fun ob~1 "); i >= 0 {
+		pre = pre[:i]
+	}
+	r := solve(pre+"(check-sat)\n", 3, "")
+	if r.Result == "unsat" {
+		return "the requires clauses (with the typing facts) are contradictory"
+	}
+	return ""
+}
